@@ -4,6 +4,8 @@ import props.C15 as C15
 
 PID = 'C16'
 PROPERTY_FILE = 'Properties/C16.v'
+# generated model parts (translate/) this property's model / proofs really depend on
+GEN_DEPS = []
 MODEL_TARGETS = R.MODEL_TARGETS
 PROOF_TARGETS = ['Proofs/C15Proofs.vo']
 COQ_HEADER = R.COQ_HEADER
